@@ -274,4 +274,19 @@ theorem C40_source_index_overwrite : OntVerif.Gen.LedgerQuery.setHeaderIndexOver
 example (h : Nat) (x y : Hash) (idx : List (Nat × Hash)) : mapGet h (mapSet h y (mapSet h x idx)) = some y := by
   rw [mapGet_mapSet]; simp
 
+/-! ### every transaction of a stored block comes back, whatever their number -/
+
+/-- block-by-hash and block-by-height return ALL transactions of the committed block, in order, for every block length (the model
+rebuilds the list from the stored hash list with no bound; this is `C40_agree` read on the transaction list) -/
+theorem C40_all_transactions_returned (P : Prims) (ops : List Op) (l : Ledger) (h : runOps P ops emptyLedger = some l)
+    (g : Good P (committed ops)) (i : Nat) (b : Block) (hb : (committed ops)[i]? = some b) :
+    (getBlockByHash l (P.hH b.hdr)).map (·.txs) = some b.txs ∧ (getBlockByHeight l i).map (·.txs) = some b.txs
+      ∧ (getBlockByHash l (P.hH b.hdr)).map (·.txs.length) = some b.txs.length := by
+  obtain ⟨_, a2, a3, _, _⟩ := C40_agree P ops l h g i b hb
+  rw [a2, a3]; exact ⟨rfl, rfl, rfl⟩
+
+/-- regenerated structural fact: in `loadHeaderWithTx` the loop that reads the transaction hashes of a stored block is bounded by the
+count decoded from the record, unmodified (no clamp between decoding and the loop) -/
+theorem C40_source_reads_all_tx_hashes : OntVerif.Gen.LedgerQuery.txHashLoopRunsDecodedCount = true := by decide
+
 end OntVerif.Props.C40
